@@ -139,7 +139,13 @@ def check(prop, ev, bounds=None, cvc5_cross=False):
             fns = sorted(set(fns) | set(sf))
         except Unencodable as e:
             inconc.append(f"unencodable (stdlib target call sites): {e}")
-    import ctorlemmas, constlemmas, typeinfolemmas, stateflowlemmas
+    import ctorlemmas, constlemmas, typeinfolemmas, stateflowlemmas, compilelemmas
+    try:
+        cpo, cpf = compilelemmas.obligations(S)
+        obls = obls + cpo
+        fns = sorted(set(fns) | set(cpf))
+    except Unencodable as e:
+        inconc.append(f"unencodable (compile_* faithfulness lemmas): {e}")
     try:
         sobls, sfns = stateflowlemmas.obligations(S)
         obls = obls + sobls
@@ -207,6 +213,8 @@ def check(prop, ev, bounds=None, cvc5_cross=False):
             elif role.endswith(":constant-matches-runtime"):
                 node = role.split(":")[1]
                 res = [(a, b, {}) for a, b in constlemmas.battery(node)] or None
+            elif role.endswith(":node-holds-its-own-compiled-children-in-their-slots"):
+                res = [(a, b, {}) for a, b in compilelemmas.battery() + ctorlemmas.battery()]
             elif role.endswith(":node-holds-the-given-subexpressions"):
                 res = [(a, b, {}) for a, b in ctorlemmas.battery()] or None
             elif role.startswith("C17:"):
